@@ -28,7 +28,7 @@ FoldNumRest(op, acc, rest) ==
 FoldNum(e) ==
   CASE e.e = "lit" -> IF e.v.t = "num" THEN FOk(e.v) ELSE FNo("WrongType")
     [] e.e \in {"var", "pro", "idx", "roll", "call"} -> FNo("UnknownValue")
-    [] e.e = "plit" -> LET k == PO!SmallIntValue(e.elems) IN FOk(IF k >= 0 THEN IntV(k) ELSE Inexact)
+    [] e.e = "plit" -> FOk(PoeticNum(PO!Digits(e.elems)))
     [] e.e = "un" -> LET x == FoldNum(e.x) IN
                      IF ~x.ok THEN x ELSE IF e.op = "neg" THEN FOk(NumNeg(x.v)) ELSE FNo("WrongType")
     [] e.e = "bin" -> LET l == FoldNum(e.l) IN IF ~l.ok THEN l ELSE FoldNumRest(e.op, l.v, e.r)
@@ -69,7 +69,7 @@ Template(txt, first) ==
        IF c = "." THEN "." \o Template(rest, FALSE)
        ELSE (IF first THEN "" ELSE " ") \o Stars(IF DigitVal(c) = 0 THEN 10 ELSE DigitVal(c)) \o Template(rest, FALSE)
 
-HasPoeticSpelling(v) == v.c = "fin" /\ v.n >= 0                    \* finite and not negative (also not -0)
+HasPoeticSpelling(v) == (v.c = "fin" /\ v.n >= 0) \/ (v.c \in {"big", "tiny"} /\ v.s > 0)                    \* finite and not negative (also not -0)
 HasLineBreak(s) == \E i \in 1..Len(s) : CharAt(s, i) = "\n"
 
 (* a report of the boring-assignment pass *)
